@@ -140,9 +140,23 @@ let c02 (payload : string) : string =
         | _ -> failwith "step"
       end) steps;
     String.concat " | " (List.rev !out)
-  | ["all"; max; stream] ->
+  | "all" :: max :: stream :: rest ->
     let s = bytes_of_hex stream in
-    let (ms, e) = decode_all (nat_of_int (1 + List.length s / 16)) (fun _ -> None) (n_of_dec max) fresh_obj s in
+    (* optional table of what the registered compressors' Unzip returned: ct/raw:out,... (out = E: an error) *)
+    let table = (match rest with
+      | [t] when t <> "-" -> List.map (fun e -> match String.split_on_char ':' e with
+          | [k; out] -> (match String.split_on_char '/' k with
+                         | [ct; raw] -> ((int_of_string ct, raw_of_bytes (bytes_of_hex raw)), out) | _ -> failwith "unzip table")
+          | _ -> failwith "unzip table") (String.split_on_char ',' t)
+      | _ -> []) in
+    let env (ct : n) : compressor option =
+      let c = int_of_n ct in
+      if List.exists (fun ((c', _), _) -> c' = c) table then
+        Some { c_zip = (fun _ -> None);
+               c_unzip = (fun raw -> match List.assoc_opt (c, raw_of_bytes raw) table with
+                                     | Some "E" | None -> None | Some out -> Some (bytes_of_hex out)) }
+      else None in
+    let (ms, e) = decode_all (nat_of_int (1 + List.length s / 16)) env (n_of_dec max) fresh_obj s in
     Printf.sprintf "n=%d %s end=%s" (List.length ms)
       (String.concat " ; " (List.map show_msg ms))
       (match e with None -> "none" | Some e -> derr_name e)
